@@ -38,6 +38,13 @@ RULE += (" Added after the white-box review: "
          "result names may be added to the sets in different orders, "
          "observations may be numpy scalars, appended sets may be "
          "appended again ")
+RULE += (" Added after the second white-box review: the skip-count part "
+         "also collects into a set that starts empty, stores the skip "
+         "count before or between the other results, adds a second "
+         "ordinary result and lets sets carry an earlier variation "
+         "(appended results) that must stay untouched; MISC observations "
+         "include None and small lists; RATIO observations may be rates "
+         "k/8 (floats) with total 1. ")
 
 LEVEL_TEXT = ("Generated-history search (Hypothesis, seeded, sharded) over "
               "update sequences, partitions, merge association orders, result "
@@ -89,7 +96,7 @@ def _gen_float():
 
 _CLASSES = {
     "SUM": ("int", "dyadic", "float", "mixed"),
-    "RATIO": ("dyadic", "general"),
+    "RATIO": ("dyadic", "general", "unitfrac"),
     "MISC": ("misc",),
     "CHOICE": ("choice",),
 }
@@ -108,6 +115,11 @@ def _obs_strategy(typ, cls, choice_num):
         if cls == "dyadic":
             t = st.sampled_from([1, 2, 4, 8, 16, 64, 1024])
             v = st.integers(0, 1000)
+        elif cls == "unitfrac":
+            # what the apps record: a rate (float in [0, 1]) per repetition,
+            # total 1
+            t = st.just(1)
+            v = st.integers(0, 8).map(lambda k: k / 8.0)
         else:
             t = st.integers(1, 10**4)
             v = st.integers(0, 10**4)
@@ -116,7 +128,9 @@ def _obs_strategy(typ, cls, choice_num):
         return st.tuples(st.integers(0, choice_num - 1), none).map(list)
     v = st.one_of(st.integers(-10**6, 10**6),
                   st.text(alphabet="abcXYZ 01", max_size=5),
-                  st.sampled_from([0.5, -2.25, 1e6]))
+                  st.sampled_from([0.5, -2.25, 1e6]),
+                  # an optional observation / a small container ("anything")
+                  st.none(), st.sampled_from([[1, "a"], [], [0.5, None]]))
     return st.tuples(v, none).map(list)
 
 
@@ -324,14 +338,26 @@ def _skipcount_case(draw, tier):
     SUM result (merge_all_results documents that such sets can be merged);
     the grouping law must hold for that result as well"""
     n = draw(st.integers(2, 6))
+    with_y = draw(st.booleans())
     sets = []
     for _ in range(n):
-        sets.append(dict(x=draw(st.integers(-5, 9)),
-                         skipped=draw(st.one_of(st.none(), st.none(),
-                                                st.integers(0, 4)))))
-    order = draw(st.lists(st.integers(0, 10), min_size=n - 1,
-                          max_size=n - 1))
-    return dict(part="skipcount", sets=sets, order=order)
+        d = dict(x=draw(st.integers(-5, 9)),
+                 skipped=draw(st.one_of(st.none(), st.none(),
+                                        st.integers(0, 4))))
+        if with_y:
+            d["y"] = draw(st.integers(-3, 3))
+        if d["skipped"] is not None:
+            # the skip count may be stored before the other results, and
+            # the set may hold an earlier variation (appended results)
+            d["skip_first"] = draw(st.booleans())
+            if draw(st.integers(0, 3)) == 0:
+                d["hist"] = [draw(st.integers(10, 19)),
+                             draw(st.integers(5, 9))]
+        sets.append(d)
+    order = draw(st.lists(st.integers(0, 10), min_size=n, max_size=n))
+    empty_head = draw(st.integers(0, 2)) == 0
+    return dict(part="skipcount", sets=sets, order=order,
+                empty_head=empty_head)
 
 
 PARTS = [
@@ -359,8 +385,8 @@ class Ref(object):
             self.value_abs = sum((abs(x) for x in self.r), Fraction(0))
             self.total = None
         elif typ == "RATIO":
-            self.r = [Fraction(v, t) for v, t in obs]
-            self.value = Fraction(sum(v for v, _ in obs))
+            self.r = [Fraction(v) / Fraction(t) for v, t in obs]
+            self.value = sum((Fraction(v) for v, _ in obs), Fraction(0))
             self.value_abs = self.value
             self.total = Fraction(sum(t for _, t in obs))
         elif typ == "CHOICE":
@@ -546,7 +572,7 @@ def _check_result(ctx, r, ref, exact, acc, stage, tags, single=None):
                             tags)
 
 
-_EXACT = {"int", "dyadic", "choice"}
+_EXACT = {"int", "dyadic", "choice", "unitfrac"}
 
 
 def _new_result(Result, name, spec_type, acc, choice_num, obs, use_create):
@@ -1054,18 +1080,45 @@ def _check_combine_part(case, ctx):
 def _check_skipcount_part(case, ctx):
     from pyphysim.simulations.results import Result, SimulationResults
     tags = dict(part="skipcount")
-    objs, ranges = [], []
-    for i, d in enumerate(case["sets"]):
+    objs, ranges, hists = [], [], []
+
+    def build(x, y, skipped, skip_first):
         r = SimulationResults()
-        r.add_new_result("x", Result.SUMTYPE, d["x"])
-        if d["skipped"] is not None:
-            r.add_new_result("num_skipped_reps", Result.SUMTYPE, d["skipped"])
+        if skipped is not None and skip_first:
+            r.add_new_result("num_skipped_reps", Result.SUMTYPE, skipped)
+        r.add_new_result("x", Result.SUMTYPE, x)
+        if skipped is not None and not skip_first:
+            r.add_new_result("num_skipped_reps", Result.SUMTYPE, skipped)
+        if y is not None:
+            r.add_new_result("y", Result.SUMTYPE, y)
+        return r
+
+    if case.get("empty_head"):
+        # everything is collected into a set that starts empty
+        objs.append(SimulationResults())
+        ranges.append((0, 0))
+        hists.append(None)
+        ctx.label("skipcount:empty_receiver")
+    for i, d in enumerate(case["sets"]):
+        r = build(d["x"], d.get("y"), d["skipped"], d.get("skip_first"))
+        if d.get("hist"):
+            # an earlier variation of the same results comes first
+            hx, hs = d["hist"]
+            r0 = build(hx, None if d.get("y") is None else 0, hs,
+                       d.get("skip_first"))
+            r0.append_all_results(r)
+            r = r0
+            ctx.label("skipcount:multi_valued_set")
+        if d.get("skip_first"):
+            ctx.label("skipcount:skip_count_stored_first")
         objs.append(r)
         ranges.append((i, i + 1))
+        hists.append(d.get("hist"))
     n_with = sum(1 for d in case["sets"] if d["skipped"] is not None)
     ctx.label("skipcount:with=%s" % ("none" if n_with == 0 else "all"
-                                     if n_with == len(objs) else "some"))
-    ctx.nontrivial(0 < n_with < len(objs) and len(objs) >= 3)
+                                     if n_with == len(case["sets"])
+                                     else "some"))
+    ctx.nontrivial(0 < n_with < len(case["sets"]) and len(case["sets"]) >= 3)
     step = 0
     merged_in = []
     while len(objs) > 1:
@@ -1073,10 +1126,14 @@ def _check_skipcount_part(case, ctx):
         step += 1
         operand = objs[i + 1]
         before = _snap_set(operand)
+        receiver_was_empty = len(objs[i]) == 0
         objs[i].merge_all_results(operand)
         merged_in.append((operand, before, ranges[i + 1]))
         ranges[i] = (ranges[i][0], ranges[i + 1][1])
-        del objs[i + 1], ranges[i + 1]
+        if receiver_was_empty:
+            hists[i] = hists[i + 1]     # an empty set takes over everything
+            ctx.label("skipcount:merged_into_empty")
+        del objs[i + 1], ranges[i + 1], hists[i + 1]
         # merging never mutates the merged-in operands, now or later
         for op_set, snap, rng in merged_in:
             if _snap_set(op_set) != snap:
@@ -1086,11 +1143,15 @@ def _check_skipcount_part(case, ctx):
                                 (rng[0], rng[1] - 1, step), tags)
         a, b = ranges[i]
         part_sets = case["sets"][a:b]
-        want_x = sum(d["x"] for d in part_sets)
-        got_x = objs[i]["x"][-1].get_result()
-        if got_x != want_x:
-            raise Violation("skipcount_x", "merged 'x' of sets %d..%d is %r, "
-                            "sum is %r" % (a, b - 1, got_x, want_x), tags)
+        for nm in ("x", "y"):
+            if part_sets[0].get(nm) is None:
+                continue
+            want = sum(d[nm] for d in part_sets)
+            got = objs[i][nm][-1].get_result()
+            if got != want:
+                raise Violation("skipcount_x", "merged %r of sets %d..%d is "
+                                "%r, sum is %r" % (nm, a, b - 1, got, want),
+                                tags)
         have = [d["skipped"] for d in part_sets if d["skipped"] is not None]
         names = objs[i].get_result_names()
         if have:
@@ -1104,6 +1165,18 @@ def _check_skipcount_part(case, ctx):
                                 "of sets %d..%d (counts %r) is %r, expected %r"
                                 % (a, b - 1, [d["skipped"] for d in part_sets],
                                    got, sum(have)), tags)
+        if hists[i]:
+            # the earlier variation held by the receiver is not touched
+            hx, hs = hists[i]
+            got = (objs[i]["x"][0].get_result(),
+                   objs[i]["num_skipped_reps"][0].get_result(),
+                   len(objs[i]["x"]), len(objs[i]["num_skipped_reps"]))
+            if got != (hx, hs, 2, 2):
+                raise Violation("skipcount_earlier_variation", "the earlier "
+                                "variation (x=%r, skipped=%r) of the "
+                                "receiving set reads x=%r skipped=%r (list "
+                                "lengths %r, %r) after a merge" %
+                                ((hx, hs) + got), tags)
 
 
 def check(case, ctx):
